@@ -391,6 +391,10 @@ class Calls(SpecRT, Strings, Loops, AnyVals, AbsSeqs):
         return None
 
     def ref_truth(self, v, st):
+        if v.cname == 'dict':
+            # non-empty iff some key is present: dict_nonempty(d) with  has(d,k) => nonempty(d)
+            from .anyval import dict_nonempty
+            return dict_nonempty(v.t, z3.Select(self.dict_arrays(st)[0], v.t))
         if isinstance(v.cls, ClassInfo):
             m, _ = self.find_method(v.cls, '__bool__')
             if m is not None:
